@@ -46,10 +46,11 @@ static inline uint64_t spec_unpack_at(const uint8_t *buf, unsigned i, unsigned w
 
 /* ---- state invariants of carquet's delta_decoder_t, used by the contracts (verification side) ---- */
 /* immutable part, established by delta_decoder_init: header fields are attacker-controlled */
-#define DELTA_DEC_HDR(d) ((d)->size <= CQV_MAXBUF && __CPROVER_r_ok((d)->data, (d)->size) \
+#define DELTA_DEC_HDR(d) ((d)->size <= CQV_MAXBUF \
   && (d)->mini_blocks_per_block >= 1 && (d)->mini_blocks_per_block <= 4 \
   && (d)->block_size >= 1 && (d)->block_size <= 128 \
-  && (d)->block_size / (d)->mini_blocks_per_block <= 32)
+  && (d)->block_size / (d)->mini_blocks_per_block <= 32 \
+  && (((d)->block_size / (d)->mini_blocks_per_block) & 7) == 0)   /* whole groups of 8: carquet_bitunpack_32 reads whole groups */
 /* moving part */
 #define DELTA_DEC_CUR(d) ((d)->pos <= (d)->size \
   && (d)->current_mini_block >= 0 && (d)->current_mini_block <= (d)->mini_blocks_per_block \
